@@ -15,10 +15,14 @@ The harness itself never applies Python's `<` to labels: all its sorting goes th
 with Python's order wherever the implementation may sort (labels that share a hyperedge / a side)."""
 import copy
 import itertools
+import json
+import math
+import os
 import pickle
 import random
 import re
 import signal
+import tempfile
 from collections import Counter
 from fractions import Fraction
 
@@ -34,9 +38,14 @@ RULE = ("a case is a program over up to 3 objects of one class (Hypergraph or Di
         "the COPY of an edited original); 'reproject' (A projected, edited in place - one hyperedge replaced by another "
         "of the same shape so that node and hyperedge counts stay, or only an isolated node added / removed - and "
         "projected again: stale caches); 'events' (1-5 random events among derive [copy(), copy.deepcopy, pickle round "
-        "trip, subhypergraph(all / some nodes), get_edges(size=k, subhypergraph=True)], edit [remove_edge(s), "
+        "trip, save_hypergraph(binary=True) + load_hypergraph, subhypergraph(all / some nodes), get_edges(size=k, subhypergraph=True)], edit [remove_edge(s), "
         "add_edge(s), replace, re-insert, insert an existing hyperedge again, temporary hyperedge, add_node, "
-        "remove_node(s) with keep_edges False/True, clear] and project, then every live object is projected). Contents: undirected: (thorough) every set of 1..4 distinct hyperedges "
+        "remove_node(s) with keep_edges False/True (also where it leaves the node-less hyperedge () in the list), clear, "
+        "add_empty_edge (a record in the registry of node-less hyperedges; sometimes the same name once more = a "
+        "rejected call)] and project, then every live object is projected); 'hif' (the object is read with read_hif from "
+        "a generated HIF document - nodes renumbered, edge records without incidences filed in the registry, isolated "
+        "nodes, node / edge / incidence metadata - and then goes through 0-5 events); 15% of the undirected objects get "
+        "1-2 registered node-less hyperedges right after construction. Contents: undirected: (thorough) every set of 1..4 distinct hyperedges "
         "(sizes 1-5) over a 5-node universe, all 5 nodes added (uncovered ones are isolated), hyperedge order shuffled, "
         "reached by route plain/detour/copy/copied/reproject so that the projected object ends with exactly that "
         "content (15%: plus a node labelled by the tuple of one of the hyperedges); (both tiers) random hypergraphs with 3-9 nodes, 1-10 hyperedges of size 1-5 with nested and "
@@ -56,7 +65,11 @@ RULE = ("a case is a program over up to 3 objects of one class (Hypergraph or Di
         "random ones with sides of size 1-3, some with overlapping sides, plus a stream with an empty side "
         "(correspondence of the ZeroDivisionError only). Every project step runs bipartite, clique (keep_isolated "
         "False/True), line graph and directed line graph for intersection s in {1,2,3} and Jaccard s in "
-        "{1/4,1/3,1/2,2/3,1} plus one more threshold per object (4, 5, 6, 1.0, 2.0 or another achievable ratio), weighted "
+        "{1/4,1/3,1/2,2/3,1} plus one more threshold per object (4, 5, 6, 1.0, 2.0 or another achievable ratio) plus, per "
+        "distance, 3 thresholds NEAR a similarity value (85%: a value that occurs between two overlapping hyperedges of the "
+        "object at hand): exactly on it, 1-3 ulps below / above it, or off by a relative 1e-15 ... 1e-3 in either "
+        "direction, handed in as float, numpy float64, the equal exact Fraction or (integral ones) int / numpy int64; "
+        "4%: a tiny positive Jaccard threshold (5e-324, 1e-300, 1e-12); weighted "
         "False/True (every returned graph / id table is scribbled on after examination: a later call must not hand "
         "out the same objects), the to_line_graph methods (given and default arguments), "
         "simplicial_complex and the similarity functions on all pairs; the table of get_incident_edges of the real "
@@ -66,7 +79,11 @@ RULE = ("a case is a program over up to 3 objects of one class (Hypergraph or Di
         "hyperedges overlaps")
 ASSUMPTIONS = ["hyperedges are duplicate-free node tuples, distinct, sizes 1..5 (directed: the Jaccard claims need a "
                "non-empty union, i.e. non-empty sides)",
-               "thresholds: integers >= 1 for intersection, fractions in (0,1] for Jaccard (passed to the code as floats)",
+               "thresholds: positive numbers (the property's integers >= 1 for intersection and (0,1] for Jaccard, and the "
+               "floats a few ulps / a relative 1e-15..1e-3 around the similarity values); `at least s` is read on numbers, "
+               "without tolerance: the intersection size is an integer, the Jaccard similarity is the float quotient that "
+               "edge_similarity.jaccard_similarity returns, the threshold is the number the argument is (a float is a "
+               "dyadic rational)",
                "labels are hashable and the labels of one hyperedge (directed: of one side) are mutually comparable and "
                "totally ordered by Python's `<` (the containers store tuple(sorted(.))): numbers of any type with "
                "numbers, strings with strings, bytes with bytes, tuples with tuples of the same make, frozensets only in "
@@ -75,11 +92,16 @@ ASSUMPTIONS = ["hyperedges are duplicate-free node tuples, distinct, sizes 1..5 
                "inside a class as Python orders them) before they reach the model",
                "the content an object must have after a history (add/remove of nodes and hyperedges, copy, "
                "subhypergraph, clear) is tracked by a plain-Python set model of the documented container semantics; "
-               "histories avoid remove_node(keep_edges=True) where it would create an empty hyperedge and, directed, "
-               "remove_node of a node that is on both sides of one hyperedge"]
+               "a record of add_empty_edge / read_hif's edge records without incidences are not hyperedges (get_edges() "
+               "does not list them); remove_node(keep_edges=True) of the only node of a hyperedge leaves the hyperedge () "
+               "in the list, which then is a hyperedge like any other (vertex of its own, joined to nothing); directed "
+               "histories avoid remove_node of a node that is on both sides of one hyperedge; read_hif numbers the nodes "
+               "in the order of first occurrence (incidence table, then node table)"]
 TRUSTED = ["float division i/u of two small ints is the correctly rounded quotient and rounding is monotone: the code's "
-           "`w >= s` on floats agrees with the exact comparison of fractions with denominators <= 10 (weights compared "
-           "as float(Fraction(i, u)))",
+           "`w >= s` on floats agrees with the exact comparison `i/u >= p/q` when s is the float of a ratio p/q with "
+           "q <= 12, and with `i/u >= s` (s as the exact dyadic rational) for every other float s - this is how a float "
+           "threshold is handed to the model (`model_threshold`); the oracle compares float(Fraction(i, u)) with s as "
+           "numbers (weights compared as float(Fraction(i, u)))",
            "networkx Graph/DiGraph: add_node/add_edge/add_nodes_from store vertices, symmetric (Graph) or one-way "
            "(DiGraph) adjacency and attribute dicts as modelled",
            "itertools.combinations / chain enumerate all index-increasing sub-tuples",
@@ -436,8 +458,15 @@ def oracle_clique(viol, nodes, E, res, keep):
         return viol("clique: edges outside the node set")
 
 
-def oracle_line(viol, E, res, dist, s, weighted, directed):
-    name = ("directed_line_graph" if directed else "line_graph") + f"({dist}, s={s}, weighted={weighted})"
+def at_least(dist, val, S):
+    """`the value is at least s`: the intersection size is an integer; the Jaccard similarity is the float quotient
+    (edge_similarity.jaccard_similarity returns a float), compared with the threshold as numbers (no tolerance)"""
+    return (Fraction(float(val)) if dist == "jaccard" else val) >= S
+
+
+def oracle_line(viol, E, res, dist, s_arg, weighted, directed):
+    name = ("directed_line_graph" if directed else "line_graph") + f"({dist}, s={s_arg!r}, weighted={weighted})"
+    s = exact(s_arg)
     if res[0] != "ok":
         return viol(f"{name} raised {res[1]}")
     g, tab = res[1]
@@ -453,7 +482,7 @@ def oracle_line(viol, E, res, dist, s, weighted, directed):
         for j in (range(m) if directed else range(i + 1, m)):
             if i != j:
                 val = o_dist(dist, tab[i][1], tab[j][0]) if directed else o_dist(dist, tab[i], tab[j])
-                if val >= s:
+                if at_least(dist, val, s):
                     want[(i, j)] = val
     got = {}
     for u, v, a in g.edges(data=True):
@@ -461,7 +490,7 @@ def oracle_line(viol, E, res, dist, s, weighted, directed):
     if set(got) != set(want):
         i, j = sorted(set(got) ^ set(want))[0]
         val = o_dist(dist, tab[i][1], tab[j][0]) if directed else o_dist(dist, tab[i], tab[j])
-        return viol(f"{name}: {tab[i]!r} -> {tab[j]!r} with value {val} is "
+        return viol(f"{name}: {tab[i]!r} -> {tab[j]!r} with value {val} (float {float(val)!r}) is "
                     f"{'joined' if (i, j) in got else 'not joined'}")
     if weighted:
         for (i, j), val in want.items():
@@ -574,7 +603,10 @@ class Content:
         inc = self.incident(n)
         if self.kind == "d":
             return not any(n in e[0] and n in e[1] for e in inc)
-        return not keep or all(len(e) >= 2 for e in inc)
+        # keep_edges=True on the only node of a hyperedge leaves the node-less hyperedge () in the hyperedge list: a user
+        # can hold such an object, and every claim of the property reads on it (a vertex of its own in the bipartite
+        # projection and the line graph, joined to nothing)
+        return True
 
 
 def track(T, kind, op):
@@ -605,7 +637,7 @@ def track(T, kind, op):
     elif name == "rmnodes":
         for n in op[2]:
             T[X].remove_node(n, bool(op[3]))
-    elif name in ("copy", "deepcopy", "pickle"):
+    elif name in ("copy", "deepcopy", "pickle", "hgx"):
         T[X] = T[op[2]].copy()
     elif name == "sub":
         src, ns = T[op[2]], set(op[3])
@@ -616,8 +648,26 @@ def track(T, kind, op):
         T[X] = Content(kind, set(src.nodes) if op[4] else set().union(*[members(kind, e) for e in es]), es)
     elif name == "clear":
         T[X] = Content(kind)
+    elif name == "hif":
+        T[X] = Content(kind, *hif_content(op[2]))
+    elif name in ("empty", "empty!"):
+        pass            # a record in the registry of node-less hyperedges is no hyperedge: get_edges() does not list it
     elif name != "project":
         raise ValueError(f"unknown op {op!r}")
+
+
+def hif_content(data):
+    """nodes and hyperedges of the object read_hif builds from a HIF document: nodes are renumbered 0, 1, ... in the
+    order of their first occurrence (incidence records first, then the node table); a hyperedge is the set of the nodes of
+    the incidence records that name it (two names with the same nodes are one hyperedge); an edge record without any
+    incidence is no hyperedge (read_hif files it with add_empty_edge)"""
+    nid, mem = {}, {}
+    for inc in data["incidences"]:
+        nid.setdefault(inc["node"], len(nid))
+        mem.setdefault(inc["edge"], set()).add(nid[inc["node"]])
+    for rec in data["nodes"]:
+        nid.setdefault(rec["node"], len(nid))
+    return set(nid.values()), {tuple(sorted(m)) for m in mem.values()}
 
 
 def weight_of(kind, e):
@@ -664,17 +714,38 @@ def perform(H, kind, weighted, op):
         H[X] = copy.deepcopy(H[op[2]])
     elif name == "pickle":
         H[X] = pickle.loads(pickle.dumps(H[op[2]]))
+    elif name == "hgx":
+        from hypergraphx.readwrite.save import save_hypergraph
+        from hypergraphx.readwrite.load import load_hypergraph
+        with tempfile.TemporaryDirectory() as tmp:
+            path = os.path.join(tmp, "h.hgx")
+            save_hypergraph(H[op[2]], path, binary=True)
+            H[X] = load_hypergraph(path)
     elif name == "sub":
         H[X] = H[op[2]].subhypergraph(list(op[3]))
     elif name == "subk":
         H[X] = H[op[2]].get_edges(size=op[3], subhypergraph=True, keep_isolated_nodes=bool(op[4]))
     elif name == "clear":
         H[X].clear()
+    elif name == "empty":
+        H[X].add_empty_edge(op[2], copy.deepcopy(op[3]))
+    elif name == "empty!":
+        try:
+            H[X].add_empty_edge(op[2], copy.deepcopy(op[3]))     # a name that is registered already: rejected (or ignored)
+        except Exception:  # noqa: BLE001
+            pass
+    elif name == "hif":
+        from hypergraphx.readwrite.hif import read_hif
+        with tempfile.TemporaryDirectory() as tmp:
+            path = os.path.join(tmp, "h.hif.json")
+            with open(path, "w") as f:
+                json.dump(op[2], f)
+            H[X] = read_hif(path)
     else:
         raise ValueError(f"unknown op {op!r}")
 
 
-EDITS = ("node", "nodes", "edge", "edges", "rm", "rms", "rmnode", "rmnodes", "clear")
+EDITS = ("node", "nodes", "edge", "edges", "rm", "rms", "rmnode", "rmnodes", "clear", "empty", "empty!")
 REMOVALS = ("rm", "rms", "rmnode", "rmnodes", "clear")
 
 
@@ -717,6 +788,13 @@ def run_program(ctx, drv, case):
                 tags.append("after_removals")
             if inf["derived"]:
                 tags.append("derived_object")
+            if inf.get("from_hif"):
+                tags.append("read_from_hif")
+            try:
+                if len(getattr(H[X], "_empty_edges", None) or ()) > 0:
+                    tags.append("with_node_less_records")
+            except Exception:  # noqa: BLE001
+                pass
             vcase = {**case, "at_step": step, "object": X}
             (project_directed if kind == "d" else project_undirected)(ctx, drv, vcase, case, H[X], T[X], tuple(tags))
             inf["projected"], inf["dirty"] = True, False
@@ -732,13 +810,14 @@ def run_program(ctx, drv, case):
             ctx.violation({**case, "at_step": step},
                           f"step {step} of the history, {op!r}, raised {type(ex).__name__}: {ex}"[:300])
             return
-        if name in ("new", "ctor"):
-            info[X] = {"projected": False, "dirty": False, "removals": 0, "derived": False, "relative_edited": False,
+        if name in ("new", "ctor", "hif"):
+            info[X] = {"from_hif": name == "hif","projected": False, "dirty": False, "removals": 0, "derived": False, "relative_edited": False,
                        "family": {X}}
-        elif name in ("copy", "deepcopy", "pickle", "sub", "subk"):
+        elif name in ("copy", "deepcopy", "pickle", "hgx", "sub", "subk"):
             fam = info[op[2]]["family"]
             fam.add(X)
-            info[X] = {"projected": False, "dirty": False, "removals": info[op[2]]["removals"], "derived": True,
+            info[X] = {"from_hif": info[op[2]].get("from_hif"),
+                       "projected": False, "dirty": False, "removals": info[op[2]]["removals"], "derived": True,
                        "relative_edited": False, "family": fam}
         elif name in EDITS:
             info[X]["dirty"] = True
@@ -752,13 +831,105 @@ def run_program(ctx, drv, case):
 # ------------------------------------------------------------------------------------------
 # one projected object
 
-def thresholds(E):
+# relative distances of a threshold from a similarity value (tolerances that a comparison may have been given)
+REL = [1e-15, 1e-13, 1e-11, 1e-10, 5e-10, 9.9e-10, 1.01e-9, 1e-8, 1e-7, 1e-6, 1e-5, 1e-4, 1e-3]
+# the float of every ratio p/q a Jaccard similarity can be (sizes <= 5: unions <= 10) -> that ratio
+RATIO_OF_FLOAT = {p / q: Fraction(p, q) for q in range(1, 13) for p in range(1, q + 1)}
+NEAR_PER_DISTANCE = 3
+
+
+def exact(s_arg):
+    """the number a threshold argument IS (floats are dyadic rationals)"""
+    if isinstance(s_arg, np.generic):
+        s_arg = s_arg.item()
+    return Fraction(s_arg)
+
+
+def model_threshold(dist, s_arg):
+    """the rational threshold the model is given.  The implementation compares the FLOAT quotient i/u with the float
+    s; by TRUSTED[0] (correctly rounded, monotone division) that is `i/u >= p/q` when s is the float of a ratio p/q a
+    similarity can be, and `i/u >= s` (s as the exact dyadic rational) for every other float"""
+    S = exact(s_arg)
+    if dist == "jaccard":
+        try:
+            f = float(S)
+        except OverflowError:
+            return S
+        if Fraction(f) == S:
+            return RATIO_OF_FLOAT.get(f, S)
+    return S
+
+
+def attained(directed, E):
+    """the values of the pairs of hyperedges the projection looks at (overlapping ones)"""
+    ints, jacs = set(), set()
+    pairs = ((a[1], b[0]) for a in E for b in E if a != b) if directed else itertools.combinations(E, 2)
+    for x, y in pairs:
+        i = o_inter(x, y)
+        if i:
+            ints.add(Fraction(i))
+            jacs.add(o_jacc(x, y))
+    return sorted(ints), sorted(jacs)
+
+
+def dress(r, s):
+    """the float threshold s as the caller may hand it in: float, numpy float64, the equal exact Fraction, an int"""
+    m = r.random()
+    if s == int(s) and m < 0.4:
+        return r.choice([int(s), np.int64(int(s)), Fraction(int(s))])
+    if m < 0.75:
+        return s
+    if m < 0.88:
+        return np.float64(s)
+    return Fraction(s)
+
+
+def near_thresholds(r, dist, vals):
+    """thresholds exactly ON a similarity value, 1-3 ulps below / above it and within a relative 1e-15 .. 1e-3 of it;
+    the values are mostly those that occur between overlapping hyperedges of the object at hand"""
+    default = [Fraction(k) for k in (1, 2, 3, 4, 5)] if dist == "intersection" else list(RATIO_OF_FLOAT.values())
+    out = []
+    for _ in range(NEAR_PER_DISTANCE):
+        v = r.choice(vals) if vals and r.random() < 0.85 else r.choice(default)
+        f = float(v)
+        m = r.random()
+        if m < 0.1:
+            s = f
+        elif m < 0.45:
+            to = math.inf if r.random() < 0.6 else -math.inf
+            s = f
+            for _ in range(r.choice([1, 1, 1, 2, 3])):
+                s = math.nextafter(s, to)
+        else:
+            rel = r.choice(REL)
+            s = f * (1 + rel) if r.random() < 0.6 else f * (1 - rel)
+        if s > 0:
+            out.append(dress(r, s))
+    return out
+
+
+def fresh_num(x):
+    """an equal number object of the same type, built anew"""
+    return type(x)(x) if isinstance(x, (int, float, Fraction, np.generic)) and not isinstance(x, bool) else x
+
+
+def thresholds(E, directed=False):
+    """(distance, code of the distance in the driver's protocol, threshold argument as it is handed to the code)"""
     for s in INT_S:
-        yield "intersection", "i", s, s
+        yield "intersection", "i", s
     for s in JAC_S:
-        yield "jaccard", "j", s, float(s)
-    # the extra one depends on the content only, so that a replay sees the same threshold
-    yield random.Random(stable(E)).choice(EXTRA_S)
+        yield "jaccard", "j", float(s)
+    # the others depend on the content only, so that a replay sees the same thresholds
+    r = random.Random(stable(E))
+    x = r.choice(EXTRA_S)
+    yield x[0], x[1], x[3]
+    ints, jacs = attained(directed, E)
+    if r.random() < 0.04:
+        yield "jaccard", "j", r.choice([5e-324, 1e-300, 1e-12])
+    for s in near_thresholds(r, "intersection", ints):
+        yield "intersection", "i", s
+    for s in near_thresholds(r, "jaccard", jacs):
+        yield "jaccard", "j", s
 
 
 def spoil(res):
@@ -894,11 +1065,12 @@ def project_undirected(ctx, drv, vcase, case, h, want, tags):
         expect.append(("graph", canon_nx(res[1], False, lambda v: rk(rank, v)), False) if res[0] == "ok" else ("exc",))
         spoil(res)
     # line graph
-    for dist, dcode, s, s_arg in thresholds(E):
+    thr = list(thresholds(E))
+    for dist, dcode, s_arg in thr:
         for weighted in (False, True):
-            res = guarded(P.line_graph, h, distance=dist, s=s_arg, weighted=weighted)
-            oracle_line(viol, E, res, dist, s, weighted, False)
-            lines.append(f"line {dcode} {hgxv.enc_num(s)} {int(weighted)}")
+            res = guarded(P.line_graph, h, distance=dist, s=fresh_num(s_arg), weighted=weighted)
+            oracle_line(viol, E, res, dist, s_arg, weighted, False)
+            lines.append(f"line {dcode} {hgxv.enc_num(model_threshold(dist, s_arg))} {int(weighted)}")
             if res[0] == "ok":
                 g, tab = res[1]
                 expect.append(("line", canon_nx(g, False, lambda v: v if isinstance(v, int) else -1), False,
@@ -911,16 +1083,29 @@ def project_undirected(ctx, drv, vcase, case, h, want, tags):
         viol("Hypergraph.to_line_graph('jaccard', 0.5, True) differs from line_graph(h, 'jaccard', 0.5, True)")
     if not same_line_graph(False, guarded(h.to_line_graph), guarded(P.line_graph, h)):
         viol("Hypergraph.to_line_graph() differs from line_graph(h)")
+    d_, _, s_ = thr[-1]
+    if not same_line_graph(False, guarded(h.to_line_graph, d_, fresh_num(s_), True), guarded(P.line_graph, h, d_, fresh_num(s_), True)):
+        viol(f"Hypergraph.to_line_graph({d_!r}, {s_!r}, True) differs from line_graph(h, {d_!r}, {s_!r}, True)")
     # simplicial complex
     res = guarded(lambda: [tuple(osorted(e)) for e in simplicial_complex(h).get_edges()])
     oracle_simplicial(viol, E, res)
     lines.append("simp")
     expect.append(("simp", sorted([rk(rank, x) for x in e] for e in res[1])) if res[0] == "ok" else ("exc",))
     # similarity functions on all pairs of hyperedges
+    n_sim = len(E)
     for a, b in itertools.combinations_with_replacement(E[:5], 2):
-        ri = guarded(ES.intersection, set(a), set(b))
-        rj = guarded(ES.jaccard_similarity, set(a), set(b))
-        rd = guarded(ES.jaccard_distance, set(a), set(b))
+        if not a and not b:
+            continue                # the Jaccard similarity of the node-less hyperedge with itself is undefined
+        # the containers the unchanged functions accept: sets / frozensets (intersection), any collection (Jaccard)
+        n_sim += 1
+        mk = (set, frozenset)[n_sim % 2]
+        mkj = (set, frozenset, list, tuple)[n_sim % 4]
+        args = [mk(a), mk(b), mkj(a), mkj(b), mkj(b), mkj(a)]
+        ri = guarded(ES.intersection, args[0], args[1])
+        rj = guarded(ES.jaccard_similarity, args[2], args[3])
+        rd = guarded(ES.jaccard_distance, args[4], args[5])
+        if args != [mk(a), mk(b), mkj(a), mkj(b), mkj(b), mkj(a)]:
+            viol(f"the similarity functions changed their arguments {a!r}, {b!r}")
         if ri != ("ok", o_inter(a, b)):
             viol(f"intersection({a!r}, {b!r}) = {ri[1]!r}")
         if rj[0] != "ok" or float(rj[1]) != float(o_jacc(a, b)):
@@ -943,6 +1128,8 @@ def project_undirected(ctx, drv, vcase, case, h, want, tags):
         ctx.count("with_isolated_nodes")
     if any(set(a) < set(b) or set(b) < set(a) for a, b in itertools.combinations(E, 2)):
         ctx.count("with_nested_hyperedges")
+    if () in E:
+        ctx.count("undirected_with_node_less_hyperedge_in_the_list")
     if nodes and isinstance(nodes[0], str):
         ctx.count("string_labels")
     count_labels(ctx, "u", nodes, E)
@@ -965,13 +1152,14 @@ def project_directed(ctx, drv, vcase, case, h, want, tags):
     lines = ["dload " + hgxv.enc_lists([[rank[x] for x in e[0]] for e in E]) + " "
              + hgxv.enc_lists([[rank[x] for x in e[1]] for e in E])]
     expect = [("plain", "ok")]
-    for dist, dcode, s, s_arg in thresholds(E):
+    thr = list(thresholds(E, True))
+    for dist, dcode, s_arg in thr:
         for weighted in (False, True):
-            res = guarded(P.directed_line_graph, h, distance=dist, s=s_arg, weighted=weighted)
+            res = guarded(P.directed_line_graph, h, distance=dist, s=fresh_num(s_arg), weighted=weighted)
             if not (empty_side and dist == "jaccard"):
                 # with an empty side the Jaccard value of two empty sets is undefined: only the correspondence is checked
-                oracle_line(viol, E, res, dist, s, weighted, True)
-            lines.append(f"dline {dcode} {hgxv.enc_num(s)} {int(weighted)}")
+                oracle_line(viol, E, res, dist, s_arg, weighted, True)
+            lines.append(f"dline {dcode} {hgxv.enc_num(model_threshold(dist, s_arg))} {int(weighted)}")
             if res[0] == "ok":
                 g, tab = res[1]
                 expect.append(("line", canon_nx(g, True, lambda v: v if isinstance(v, int) else -1), True,
@@ -984,6 +1172,10 @@ def project_directed(ctx, drv, vcase, case, h, want, tags):
         if not same_line_graph(True, guarded(h.to_line_graph, "jaccard", 0.5, True),
                                guarded(P.directed_line_graph, h, "jaccard", 0.5, True)):
             viol("DirectedHypergraph.to_line_graph('jaccard', 0.5, True) differs from directed_line_graph")
+        d_, _, s_ = thr[-1]
+        if not same_line_graph(True, guarded(h.to_line_graph, d_, fresh_num(s_), True),
+                               guarded(P.directed_line_graph, h, d_, fresh_num(s_), True)):
+            viol(f"DirectedHypergraph.to_line_graph({d_!r}, {s_!r}, True) differs from directed_line_graph")
     if not same_line_graph(True, guarded(h.to_line_graph), guarded(P.directed_line_graph, h)):
         viol("DirectedHypergraph.to_line_graph() differs from directed_line_graph(h)")
     overlapping = any(set(a[1]) & set(b[0]) for a in E for b in E if a != b)
@@ -1381,6 +1573,50 @@ def gen_directed(rng, empty_side=False):
     return {"kind": "d", "nodes": iso, "edges": out, "U": U}
 
 
+HIF_NODE_NAMES = ["a", "b", "c", "d", "e", "f", "g", "n0", "N1", "0", "1", "", "x y", "\u00e9"] + list(range(0, 12)) + [10 ** 9, -3]
+HIF_EDGE_NAMES = ["e0", "e1", "e2", "E3", "lonely", "", "0", "edge 5", "f"] + list(range(0, 9))
+
+
+def gen_hif(rng):
+    """a HIF document (nodes / edges / incidences tables): 1-8 named nodes, 0-7 named hyperedges of size 1-5 given by
+    incidence records in random order, 0-2 (60%: at least 1) edge records WITHOUT incidences, node records without
+    incidences (isolated nodes), nodes and hyperedges that occur only in the incidence table, sometimes two edge names
+    with the same node set.  The content of the object read from it: `hif_content`"""
+    n = rng.randint(1, 8)
+    names = rng.sample(HIF_NODE_NAMES, n)
+    enames = rng.sample(HIF_EDGE_NAMES, len(HIF_EDGE_NAMES))
+    mem = {}
+    for _ in range(rng.randint(0, 7)):
+        e = enames.pop()
+        if mem and rng.random() < 0.08:
+            mem[e] = list(rng.choice(list(mem.values())))
+        else:
+            mem[e] = rng.sample(names, rng.randint(1, min(5, n)))
+            if mem and rng.random() < 0.4:      # overlapping / nested with an earlier one
+                o = rng.choice(list(mem.values()))
+                mem[e] = list(dict.fromkeys(rng.sample(o, rng.randint(1, len(o))) + mem[e][:rng.randint(0, 2)]))[:5]
+    incidences = [{"edge": e, "node": x} for e, m in mem.items() for x in m]
+    rng.shuffle(incidences)
+    for inc in incidences:
+        if rng.random() < 0.2:
+            inc["weight"] = rng.choice([1, 0.5, 2])
+    lonely = [enames.pop() for _ in range(rng.choice([0, 0, 1, 1, 1, 2]))]
+    etab = [e for e in mem if rng.random() < 0.8] + lonely
+    rng.shuffle(etab)
+    ntab = [x for x in names if rng.random() < 0.8]
+    rng.shuffle(ntab)
+    data = {"network-type": "undirected", "type": rng.choice(["undirected", "undirected", "asc"]),
+            "metadata": {"name": "generated"},
+            "nodes": [{"node": x, **({"attrs": {"k": 1}} if rng.random() < 0.3 else {})} for x in ntab],
+            "edges": [{"edge": e, **({"weight": 1.5} if rng.random() < 0.3 else {})} for e in etab],
+            "incidences": incidences}
+    nodes, edges = hif_content(data)
+    if not nodes:
+        data["nodes"].append({"node": names[0]})
+        nodes, edges = hif_content(data)
+    return {"kind": "u", "nodes": osorted(nodes), "edges": osorted(edges), "U": with_spares([osorted(nodes)]), "hif": data}
+
+
 def small_undirected(rng, universe=5, max_edges=4):
     subsets = [c for r in range(1, universe + 1) for c in itertools.combinations(range(universe), r)]
     for m in range(1, max_edges + 1):
@@ -1440,6 +1676,16 @@ class Prog:
 
     def __init__(self, kind, rng, alts):
         self.kind, self.ops, self.T, self.rng, self.alts = kind, [], {}, rng, alts
+        self.n_empty = 0
+
+    def empty(self, X):
+        """a record in the registry of node-less hyperedges of X (Hypergraph.add_empty_edge - what read_hif does for an
+        edge record without incidences); names are used once per program"""
+        self.n_empty += 1
+        name = self.rng.choice([f"x{self.n_empty}", f"lonely-{self.n_empty}", 1000 + self.n_empty, -self.n_empty])
+        self.do("empty", X, name, self.rng.choice([{}, {"note": "no incidences"}, {"edge": name, "weight": 2.5}, None]))
+        if self.rng.random() < 0.15:
+            self.do("empty!", X, name, {})      # the same name once more: a rejected call inside the history
 
     def do(self, *op):
         op = list(op)
@@ -1496,10 +1742,12 @@ def gen_edit(rng, P, X, U, must_remove=False):
     if len(E) >= 2:
         choices += ["rms", "rmnodes"]
     if not must_remove or not E:
-        choices += ["edge", "edges", "node", "temp"]
+        choices += ["edge", "edges", "node", "temp"] + (["empty"] if kind == "u" else [])
         if rng.random() < 0.08:
             choices = ["clear"]
     m = rng.choice(choices)
+    if m == "empty":
+        return P.empty(X)
     if m in ("rmnode", "rmnode_keep", "rmnodes"):
         keep = m == "rmnode_keep"
         cand = [n for n in N if (T.incident(n) or rng.random() < 0.3) and T.removable(n, keep)]
@@ -1550,6 +1798,13 @@ def gen_edit(rng, P, X, U, must_remove=False):
 
 
 def build(rng, P, X, nodes, edges, U, style):
+    build_content(rng, P, X, nodes, edges, U, style)
+    if P.kind == "u" and rng.random() < 0.15:
+        for _ in range(rng.randint(1, 2)):
+            P.empty(X)
+
+
+def build_content(rng, P, X, nodes, edges, U, style):
     kind = P.kind
     edges = list(edges)
     if style == "ctor":
@@ -1584,12 +1839,12 @@ def derive(rng, P, Y, X, exact=False):
     if how < 0.5 or (exact and kind == "d" and how < 0.8):
         return P.do("copy", Y, X)
     if how < 0.6 or (exact and kind == "d"):
-        return P.do(rng.choice(["deepcopy", "pickle"]), Y, X)
+        return P.do(rng.choice(["deepcopy", "pickle", "hgx"]), Y, X)
     if kind == "u" and (how < 0.8 or exact):
         return P.do("sub", Y, X, rng.sample(N, len(N)))
     if kind == "u" and how < 0.9:
         return P.do("sub", Y, X, rng.sample(N, rng.randint(0, len(N))))
-    sizes = sorted({esize(kind, e) for e in T.edges}) or [2]
+    sizes = sorted({esize(kind, e) for e in T.edges} - {0}) or [2]
     P.do("subk", Y, X, rng.choice(sizes + sizes + [7]), rng.random() < 0.5)
 
 
@@ -1601,7 +1856,7 @@ def make_case(rng, base, route):
     """program whose (last) projection of object A sees the content `base` when the route is not 'events'"""
     kind, nodes, edges, U = base["kind"], base["nodes"], base["edges"], base["U"]
     spare = [x for u in U for x in u["spare"][:1]]
-    weighted = rng.random() < 0.15
+    weighted = rng.random() < 0.15 and route != "hif"       # read_hif builds an unweighted Hypergraph
     alts = rng.choice(ALTS)
     if any(isinstance(x, (tuple, frozenset)) or (isinstance(x, (int, float)) and 2 ** 53 <= abs(x) < float("inf"))
            for u in U for x in u["g"] + u["spare"]):
@@ -1611,7 +1866,7 @@ def make_case(rng, base, route):
         alts = [a for a in alts if a != "np"]
     P = Prog(kind, rng, alts)
     style = rng.choice(["batch", "batch", "ctor", "single", "detour"])
-    if route in ("plain", "detour") or not edges:
+    if route != "hif" and (route in ("plain", "detour") or not edges):
         build(rng, P, "A", nodes, edges, U, "detour" if route == "detour" else rng.choice(["batch", "batch", "ctor", "single"]))
         P.do("project", "A")
     elif route == "copy":
@@ -1665,9 +1920,14 @@ def make_case(rng, base, route):
             P.do("edge", "A", edges[i])
         P.do("project", "A")
     else:
-        build(rng, P, "A", nodes, edges, U, style)
+        if route == "hif":
+            P.do("hif", "A", base["hif"])
+            if rng.random() < 0.35:
+                P.do("project", "A")
+        else:
+            build(rng, P, "A", nodes, edges, U, style)
         objs = ["A"]
-        for _ in range(rng.randint(1, 5)):
+        for _ in range(rng.randint(0 if route == "hif" else 1, 5)):
             X = rng.choice(objs)
             r = rng.random()
             if r < 0.3 and len(objs) < 3:
@@ -1718,6 +1978,11 @@ def run(ctx):
         if low(ctx):
             break
         check_case(ctx, drv, make_case(rng, gen_directed(rng, empty_side=(i % 8 == 7)), rng.choice(ROUTES_RANDOM)))
+    # objects read from HIF documents (edge records without incidences go to the registry of node-less hyperedges)
+    for _ in range(ctx.scale(150, 600)):
+        if low(ctx):
+            break
+        check_case(ctx, drv, make_case(rng, gen_hif(rng), "hif"))
     # small scope: exhaustive in thorough, a random slice in quick
     if thorough:
         it_u = small_undirected(rng)
